@@ -111,11 +111,11 @@ func c14(e *Env) {
 		func(pc *core.Sym, s string) bool { return s == "$t.Name" }, "Task.Name is not among the hashed pieces: tasks of different processes with equal inputs share a temp dir")
 	chk("InIP-paths", "the path of every in-IP is part of the hashed identity",
 		func(pc *core.Sym, s string) bool {
-			return strings.Contains(s, fnPath+"(") && strings.Contains(s, "$t.InIPs") && !strings.Contains(s, "subStreamIPs[")
+			return strings.Contains(s, fnPath+"(") && strings.Contains(s, "$t.InIPs") && !strings.Contains(s, e.subFieldName()+"[")
 		}, "FileIP.Path of the elements of Task.InIPs is not among the hashed pieces")
 	chk("sub-stream-paths", "the path of every sub-stream member is part of the hashed identity",
 		func(pc *core.Sym, s string) bool {
-			return strings.Contains(s, fnPath+"(") && strings.Contains(s, "$t.subStreamIPs[")
+			return strings.Contains(s, fnPath+"(") && strings.Contains(s, "$t."+e.subFieldName()+"[")
 		}, "the paths of the sub-stream members are not among the hashed pieces")
 	kv := func(field, accessor string) func(pc *core.Sym, s string) bool {
 		return func(pc *core.Sym, s string) bool {
@@ -233,12 +233,12 @@ func c14(e *Env) {
 		}
 		// (without looking through helper calls: a slice assembled by a helper is judged at the helper's own appends)
 		as := e.symbolizer().InCtx(n.Ctx, n.Call.Args[1]).String()
-		if !(strings.Contains(as, fnPath+"(") && strings.Contains(as, "$t.InIPs") && !strings.Contains(as, "subStreamIPs[")) {
+		if !(strings.Contains(as, fnPath+"(") && strings.Contains(as, "$t.InIPs") && !strings.Contains(as, e.subFieldName()+"[")) {
 			continue
 		}
 		found = true
 		gs := core.GuardString(g.Guards(n, sy))
-		if strings.Contains(gs, "subStreamIPs") || strings.Contains(gs, ".join") {
+		if strings.Contains(gs, e.subFieldName()) || strings.Contains(gs, "."+e.joinFlagName()) {
 			ob5.OK(g.Where(n), "guarded by "+trunc(gs, 160))
 		} else {
 			ob5.Fail(g.Where(n), "the path of every in-IP is hashed unconditionally, including the carrier IP of a joined port whose path is a fresh ioutil.TempFile name: the same task gets a different temp dir in every run, so leftovers are never detected")
